@@ -37,6 +37,10 @@ FileLayer == {l \in Layer : l["wd"] # "null"}      \* TOML cannot say None
 \* How a file layer is written carries no meaning: setting names in lower or mixed case, and a section that is
 \* declared but empty (every entry commented out) says as little as a section that is not mentioned.
 FileForms == {"plain", "mixed_case", "empty_sections"}
+\* Without a configuration file, Load is the packaged defaults overlaid by the keyword arguments: calling the public
+\* constructor or model_validate with that data is the same step - it becomes the one active configuration, or is
+\* refused while one is active
+LoadEntries == {"load", "constructor", "model_validate"}
 
 \* packaged defaults (src/AEIC/data/default_config.toml)
 Default == [p \in Paths |-> IF p = "nox" THEN "bffm2" ELSE IF p = "wd" THEN "wdefault" ELSE "true"]
